@@ -268,6 +268,15 @@ fn create_tcp_listener(
     priv_dropper: PrivilegeDropper,
     address: SocketAddr,
 ) -> anyhow::Result<TcpListener> {
+    #[cfg(aquatic_verif)]
+    {
+        let listener = TcpListener::sim_bind(address, config.network.set_only_ipv6)
+            .with_context(|| format!("socket: bind to {}", address))?;
+
+        priv_dropper.after_socket_creation()?;
+
+        return Ok(listener);
+    }
     let socket = if address.is_ipv4() {
         socket2::Socket::new(
             socket2::Domain::IPV4,
